@@ -106,6 +106,16 @@ func (x *Exec) pureCallValue(fr *Frame, st *State, fn *ssa.Function, fc *FuncCon
 	}
 	rt := fn.Signature.Results().At(0).Type()
 	res := Value{T: rt, K: KScalar, X: x.pureApp(fn, ts)}
+	// an application whose arguments mention a bound variable lives under a binder: no top-level
+	// facts (extensionality instances, typing, the callee's ensures) can be stated about it
+	for _, t := range ts {
+		if termMentionsBound(t) {
+			if kindOf(rt) == KArray {
+				res, _ = x.m().fromLeaves(rt, []*Term{res.X})
+			}
+			return res
+		}
+	}
 	x.sliceExtensionality(fn, args, ts, res.X)
 	if kindOf(rt) == KArray {
 		res, _ = x.m().fromLeaves(rt, []*Term{res.X})
@@ -248,4 +258,27 @@ func (x *Exec) sliceExtensionality(fn *ssa.Function, args []Value, ts []*Term, r
 		x.vc.assume(Implies(And(hyp...), Eq(res, prev.res)))
 	}
 	reg[key] = append(reg[key], pureAppRec{args, ts, res})
+}
+
+// termMentionsBound: the term contains a variable introduced by a contract quantifier (named v!q<n>,
+// v!a<n>) or by an engine-made binder (k!e, k!p, k!bb ...).
+func termMentionsBound(t *Term) bool {
+	if t == nil {
+		return false
+	}
+	if len(t.Args) == 0 {
+		if i := strings.Index(t.Op, "!"); i > 0 && !strings.HasPrefix(t.Op, "sk!") && !strings.HasPrefix(t.Op, "f") {
+			rest := t.Op[i+1:]
+			if len(rest) > 0 && (rest[0] == 'q' || rest[0] == 'a' || rest[0] == 'e' || rest[0] == 'p' || rest[0] == 'f') {
+				return true
+			}
+		}
+		return false
+	}
+	for _, a := range t.Args {
+		if termMentionsBound(a) {
+			return true
+		}
+	}
+	return false
 }
